@@ -141,9 +141,13 @@ def _is_logging(n):
         n.value.func.value.id in ("logger", "logging")
 
 
-def signatures(func):
-    """{local name: Counter(context text)}"""
+def signatures(func, visible=(), shown=None):
+    """{local name: Counter(context text)}.  Locals in `visible` are not
+    blanked in the contexts of the others (they are written as shown[name] when
+    given): used by the refinement rounds of mapping(), where names that are
+    already paired make the contexts of their neighbours more telling."""
     locs = local_names(func)
+    blank = locs - set(visible)
     sigs = {n: collections.Counter() for n in locs}
     for h in _headers(func):
         if _is_logging(h):
@@ -152,7 +156,11 @@ def signatures(func):
         if isinstance(h, ast.Name) and h.id in locs:
             present.add(h.id)
         for name in present:
-            t = _Blank(locs, name).visit(copy.deepcopy(h))
+            h2 = copy.deepcopy(h)
+            if shown:
+                h2 = _Rename({k: v for k, v in shown.items() if k != name}
+                             ).visit(h2)
+            t = _Blank(blank | {name}, name).visit(h2)
             if isinstance(t, ast.expr):
                 try:
                     t = canon.normalize(t)
@@ -190,7 +198,7 @@ def first_occurrence_order(func):
     return [k for k, _ in sorted(seen.items(), key=lambda kv: kv[1])]
 
 
-def mapping(func, ref_sigs, threshold=0.34):
+def mapping(func, ref_sigs, threshold=0.34, qual=None):
     """{new name: vanished reference name}"""
     order_ref = ref_sigs.get("__order__") or []
     ref_sigs = {k: v for k, v in ref_sigs.items() if not k.startswith("__")}
@@ -221,6 +229,50 @@ def mapping(func, ref_sigs, threshold=0.34):
         taken.add(r)
     # exactly one new and one vanished name left: the rename (any injective
     # choice is a sound alpha-conversion)
+    # refinement: with the reference function's own (normal-form) source at
+    # hand, the contexts of the names still unpaired are recomputed with every
+    # name that IS settled (common to both trees, or paired so far) left
+    # visible - "x is compared with `binding`" tells more than "x is compared
+    # with some local"
+    ref_fn = ref_function(qual) if qual else None
+    rounds = 0
+    while ref_fn is not None and rounds < 4:
+        rounds += 1
+        rest_c = cur_only - set(out)
+        rest_r = ref_only - taken
+        if not rest_c or not rest_r:
+            break
+        settled_ref = (set(ref_sigs) & set(cur)) | taken
+        shown = dict(out)                      # new name -> reference name
+        vis_cur = (set(ref_sigs) & set(cur)) | set(out)
+        cs = signatures(func, visible=vis_cur, shown=shown)
+        rs = signatures(ref_fn, visible=settled_ref)
+        sc = []
+        for c in rest_c:
+            for r in rest_r:
+                if r not in rs or c not in cs:
+                    continue
+                v = _sim(cs[c], rs[r])
+                if v >= 0.2:
+                    sc.append((v, c, r))
+        sc.sort(key=lambda t: (-t[0], t[1], t[2]))
+        progress = False
+        for v, c, r in sc:
+            if c in out or r in taken:
+                continue
+            # with telling contexts a weaker overlap is enough, provided no
+            # other pairing of either name comes close
+            margin = 1.0 if v >= threshold else 0.6
+            rivals = [x for x in sc if (x[1] == c) != (x[2] == r) and
+                      x[0] >= v * margin and x[1] not in out and
+                      x[2] not in taken]
+            if rivals:
+                continue
+            out[c] = r
+            taken.add(r)
+            progress = True
+        if not progress:
+            break
     # names that play exactly the same role (identical contexts, e.g. two
     # flags set and tested alike) cannot be told apart by role: they are paired
     # in the order of their first appearance
@@ -309,6 +361,31 @@ def reference():
     return _REFCACHE["r"]
 
 
+SRC = os.path.join(os.path.dirname(REF), "sources.json")
+_SRCCACHE = {}
+
+
+def ref_function(qual):
+    """The reference tree's normal form of a function (parsed on demand from
+    reference/sources.json), or None."""
+    if "s" not in _SRCCACHE:
+        try:
+            with open(SRC) as fh:
+                _SRCCACHE["s"] = json.load(fh)
+        except (OSError, ValueError):
+            _SRCCACHE["s"] = {}
+    src = _SRCCACHE["s"].get(qual)
+    if not src:
+        return None
+    key = ("fn", qual)
+    if key not in _SRCCACHE:
+        try:
+            _SRCCACHE[key] = ast.parse(src).body[0]
+        except SyntaxError:
+            _SRCCACHE[key] = None
+    return _SRCCACHE[key]
+
+
 def normalise(qual, func):
     """Rename in place; returns the mapping applied ({} if none)."""
     if os.environ.get("VERIF_NO_ALPHA"):
@@ -320,7 +397,7 @@ def normalise(qual, func):
     names = {k for k in ref if not k.startswith("__")}
     if not (cur - names) or not (names - cur):
         return {}            # nothing new, or nothing vanished: no rename
-    mp = mapping(func, ref)
+    mp = mapping(func, ref, qual=qual)
     # parameters that callers may pass by keyword keep their name unless the
     # function is private (leading underscore) - the keyword is API
     if mp:
